@@ -106,4 +106,463 @@ theorem mutex_step (H : Nat → Nat) (ff : Bool) (s : St) (p : Pid) (hm : Mutex 
           rw [this] at h2; cases h2
     · exact hm i j pi pj hi' hj' hex hj2
 
+/-- a package directory is complete and its recorded hash is the hash of its content -/
+def Complete (H : Nat → Nat) (d : PkgDir) : Prop :=
+  d.audit = true ∧ ∃ c, d.ws = some c ∧ (d.info = some .torn ∨ ∃ m, d.info = some (.valid m) ∧ m.hash = H c)
+
+def PcComplete (H : Nat → Nat) (g : Store) (prog : Prog) : Pc → Prop
+  | .iRename tmp => Complete H tmp
+  | .uClosePkg (some m') _ => ∃ d c, g.final (opBid prog) = some d ∧ d.ws = some c ∧ m'.hash = H c
+  | _ => True
+
+structure InvVC (H : Nat → Nat) (s : St) : Prop where
+  store : ∀ b d, s.g.final b = some d → Complete H d
+  pcs : ∀ (i : Nat) (pi : Proc), s.procs[i]? = some pi → PcComplete H s.g pi.prog pi.pc
+  mutex : Mutex s
+
+theorem pcComplete_afterShare (H : Nat → Nat) (g' : Store) (prog : Prog) (g : Store) (r : Res) :
+    PcComplete H g' prog (afterShare prog g r).2 := by
+  rcases afterShare_pc prog g r with ⟨_, h⟩ | ⟨_, h⟩ | ⟨_, h⟩ <;> rw [h] <;> trivial
+
+theorem pcComplete_finishGc (H : Nat → Nat) (g' : Store) (prog : Prog) (g : Store) (r : Res) :
+    PcComplete H g' prog (finishGc prog g r).2 := by
+  rcases finishGc_pc prog g r with ⟨_, h⟩ | ⟨_, h⟩ | ⟨_, h⟩ <;> rw [h] <;> trivial
+
+theorem pcComplete_gcStart (H : Nat → Nat) (g' : Store) (prog : Prog) (g : Store) :
+    PcComplete H g' prog (gcStart prog g).2 := by
+  unfold gcStart
+  split
+  · exact pcComplete_finishGc ..
+  · split
+    · exact pcComplete_finishGc ..
+    · trivial
+
+theorem pcComplete_gcPlan (H : Nat → Nat) (g' : Store) (prog : Prog) (g : Store) (rm : List (Bid × Nat)) (c : List Cand) (t : Nat) :
+    PcComplete H g' prog (gcPlan prog g rm c t).2 := by
+  unfold gcPlan
+  simp only
+  split <;> trivial
+
+theorem pcComplete_gcNext (H : Nat → Nat) (g' : Store) (prog : Prog) (g : Store) (rm todo : List (Bid × Nat)) (c : List Cand) (t : Nat) :
+    PcComplete H g' prog (gcNext prog g rm todo c t).2 := by
+  unfold gcNext
+  split
+  · exact pcComplete_gcPlan ..
+  · trivial
+
+/-- the segment's own next program counter satisfies its obligation in the new store -/
+theorem stepPc_pcComplete (H : Nat → Nat) (ff : Bool) (prog : Prog) (exO shO : Bool) (g : Store) (pc : Pc)
+    (hs : ∀ b d, g.final b = some d → Complete H d) :
+    PcComplete H (stepPc H ff prog exO shO g pc).1 prog (stepPc H ff prog exO shO g pc).2 := by
+  cases pc
+  case iVerify =>
+    unfold stepPc; simp only
+    split
+    · split
+      · trivial
+      · rename_i hh
+        refine ⟨rfl, _, rfl, Or.inr ⟨_, rfl, ?_⟩⟩
+        simp at hh; exact hh.symm
+    · trivial
+  case uLockPkg =>
+    unfold stepPc; simp only
+    cases hf : g.final (opBid prog) with
+    | none => trivial
+    | some d =>
+      simp only
+      cases hi : d.info with
+      | none => trivial
+      | some j =>
+        cases j with
+        | torn => trivial
+        | valid m =>
+          simp only
+          split
+          · trivial
+          · split
+            · trivial
+            · obtain ⟨_, c, hc, hinfo⟩ := hs _ _ hf
+              refine ⟨{ d with info := some .torn, mtime := g.clock }, c, ?_, hc, ?_⟩
+              · simp [setMeta_final, hf]
+              · rcases hinfo with h | ⟨m0, h, hh⟩
+                · rw [hi] at h; cases h
+                · rw [hi] at h; cases h; exact hh
+  all_goals (unfold stepPc; simp only)
+  all_goals (repeat' split)
+  all_goals first | trivial | exact pcComplete_afterShare .. | exact pcComplete_finishGc .. | exact pcComplete_gcStart .. | exact pcComplete_gcNext .. | exact pcComplete_gcPlan ..
+
+theorem complete_of_final (H : Nat → Nat) (ff : Bool) (prog : Prog) (exO shO : Bool) (g : Store) (pc : Pc)
+    (hs : ∀ b d, g.final b = some d → Complete H d) (hpc : PcComplete H g prog pc) (b : Bid) (d' : PkgDir)
+    (h : (stepPc H ff prog exO shO g pc).1.final b = some d') : Complete H d' := by
+  rcases stepPc_final H ff prog exO shO g pc b with hsame | ⟨tmp, rfl, _, _, hnew⟩ | ⟨_, _, _, _, _, _, _, _, _, hnone⟩ |
+      ⟨d, info, mt, hb, hold, hnew, hok⟩
+  · rw [hsame] at h; exact hs b d' h
+  · rw [hnew] at h; cases h; exact hpc
+  · rw [hnone] at h; cases h
+  · rw [hnew] at h; cases h
+    obtain ⟨ha, c, hc, hinfo⟩ := hs b d hold
+    refine ⟨ha, c, hc, ?_⟩
+    rcases hok with ⟨_, hi | hi | ⟨m, m', hdi, hi, hh, _⟩⟩ | ⟨m', r, rfl, hi⟩
+    · simp only [hi]; exact hinfo
+    · left; exact hi
+    · right
+      refine ⟨m', hi, ?_⟩
+      rcases hinfo with h0 | ⟨m0, h0, hh0⟩
+      · rw [hdi] at h0; cases h0
+      · rw [hdi] at h0; cases h0; rw [hh]; exact hh0
+    · right
+      refine ⟨m', hi, ?_⟩
+      obtain ⟨d0, c0, hd0, hc0, hh⟩ := hpc
+      rw [← hb, hold] at hd0; cases hd0
+      rw [hc] at hc0; cases hc0; exact hh
+
+theorem invVC_step (H : Nat → Nat) (ff : Bool) (s : St) (p : Pid) (inv : InvVC H s) : InvVC H (step H ff s p) := by
+  have hmx := mutex_step H ff s p inv.mutex
+  rcases step_cases H ff s p with ⟨_, h⟩ | ⟨pr, hpr, h⟩
+  · rw [h]; exact inv
+  · rw [h] at hmx ⊢
+    have hpcp := inv.pcs p pr hpr
+    refine ⟨?_, ?_, hmx⟩
+    · intro b d' hd'
+      exact complete_of_final H ff pr.prog _ _ s.g pr.pc inv.store hpcp b d' hd'
+    · intro i pi hi
+      simp only at hi ⊢
+      rcases getElem?_set_cases hi with ⟨rfl, rfl, _⟩ | ⟨hip, hi'⟩
+      · exact stepPc_pcComplete H ff pr.prog _ _ s.g pr.pc inv.store
+      · have hold := inv.pcs i pi hi'
+        cases hq : pi.pc with
+        | iRename tmp => rw [hq] at hold; exact hold
+        | uClosePkg pend r =>
+          cases pend with
+          | none => trivial
+          | some m' =>
+            rw [hq] at hold
+            obtain ⟨d, c, hd, hc, hh⟩ := hold
+            rcases stepPc_final H ff pr.prog (othersAny Pc.holdsEX s.procs p) (othersAny Pc.holdsSH s.procs p) s.g pr.pc
+                (opBid pi.prog) with hsame | ⟨tmp, _, _, hnone, _⟩ | ⟨rm, cc, rest, t, dd, te, hpcm, _, _, _⟩ |
+                ⟨d0, info, mt, _, hold0, hnew, _⟩
+            · exact ⟨d, c, by rw [hsame]; exact hd, hc, hh⟩
+            · rw [hd] at hnone; cases hnone
+            · exfalso
+              have := inv.mutex p i pr pi hpr hi' (by rw [hpcm]; rfl) (Or.inr (by rw [hq]; rfl))
+              exact hip this.symm
+            · rw [hd] at hold0; cases hold0
+              exact ⟨_, c, hnew, hc, hh⟩
+        | _ => trivial
+
+theorem invVC_run (H : Nat → Nat) (ff : Bool) (init : St) (h0 : InvVC H init) (sched : List Pid) :
+    InvVC H (run H ff init sched) :=
+  run_inv H ff (fun s p => invVC_step H ff s p) init h0 sched
+
+def present (o : Option PkgDir) : Nat := if o.isSome then 1 else 0
+@[simp] theorem present_none : present none = 0 := rfl
+@[simp] theorem present_some (d : PkgDir) : present (some d) = 1 := rfl
+
+/-- successful renames = collections + (1 if the package is at its final path) -/
+def CountInv (g : Store) : Prop :=
+  ∀ b, g.nInst b = g.nGc b + present (g.final b)
+
+theorem setMeta_present (g : Store) (b : Bid) (m : JFile Meta) (b' : Bid) :
+    present ((setMeta g b m).final b') = present (g.final b') := by
+  rw [setMeta_final]
+  by_cases e : b' = b
+  · subst e; cases g.final b' <;> simp
+  · simp [e]
+
+theorem touch_present (g : Store) (b : Bid) (b' : Bid) :
+    present ((touch g b).final b') = present (g.final b') := by
+  rw [touch_final]
+  by_cases e : b' = b
+  · subst e; cases g.final b' <;> simp
+  · simp [e]
+
+theorem stepPc_gMove_cons (H : Nat → Nat) (ff : Bool) (prog : Prog) (exO shO : Bool) (g : Store)
+    (rm : List (Bid × Nat)) (c : Cand) (rest : List Cand) (t : Nat) (d te : Bool) (dd : PkgDir)
+    (hf : g.final c.bid = some dd) :
+    let g' := (stepPc H ff prog exO shO g (.gMove rm (c :: rest) t d te)).1
+    g'.final = upd g.final c.bid none ∧ g'.nGc = upd g.nGc c.bid (g.nGc c.bid + 1) ∧ g'.nInst = g.nInst ∧
+      g'.links = g.links := by
+  unfold stepPc; simp only [hf]
+  cases rest <;> simp only <;> (try split) <;> first | exact ⟨rfl, rfl, rfl, rfl⟩ | simp
+
+theorem stepPc_gMove_other (H : Nat → Nat) (ff : Bool) (prog : Prog) (exO shO : Bool) (g : Store)
+    (rm : List (Bid × Nat)) (plan : List Cand) (t : Nat) (d te : Bool)
+    (hf : ∀ c rest, plan = c :: rest → g.final c.bid = none) :
+    let g' := (stepPc H ff prog exO shO g (.gMove rm plan t d te)).1
+    g'.final = g.final ∧ g'.nGc = g.nGc ∧ g'.nInst = g.nInst ∧ g'.links = g.links := by
+  unfold stepPc; simp only
+  cases plan with
+  | nil => simp only; split <;> exact ⟨rfl, rfl, rfl, rfl⟩
+  | cons c rest => simp only [hf c rest rfl]; split <;> exact ⟨rfl, rfl, rfl, rfl⟩
+
+theorem stepPc_countInv (H : Nat → Nat) (ff : Bool) (prog : Prog) (exO shO : Bool) (g : Store) (pc : Pc)
+    (h : CountInv g) : CountInv (stepPc H ff prog exO shO g pc).1 := by
+  cases pc
+  case iRename tmp =>
+    unfold stepPc; simp only
+    split
+    · simpa using h
+    · rename_i hn
+      intro b
+      have := h b
+      by_cases e : b = opBid prog
+      · subst e
+        simp at hn
+        simp [upd, hn] at this ⊢
+        omega
+      · simpa [upd, e] using this
+  case gMove rm plan t d te =>
+    cases plan with
+    | nil =>
+      obtain ⟨h1, h2, h3, _⟩ := stepPc_gMove_other H ff prog exO shO g rm [] t d te (by intro c rest hh; cases hh)
+      intro b; rw [h1, h2, h3]; exact h b
+    | cons c rest =>
+      cases hf : g.final c.bid with
+      | none =>
+        obtain ⟨h1, h2, h3, _⟩ := stepPc_gMove_other H ff prog exO shO g rm (c :: rest) t d te
+          (by intro c' rest' hh; cases hh; exact hf)
+        intro b; rw [h1, h2, h3]; exact h b
+      | some dd =>
+        obtain ⟨h1, h2, h3, _⟩ := stepPc_gMove_cons H ff prog exO shO g rm c rest t d te dd hf
+        intro b
+        have := h b
+        rw [h1, h2, h3]
+        by_cases e : b = c.bid
+        · subst e; simp [upd, hf] at this ⊢; omega
+        · simpa [upd, e] using this
+  case uLockPkg =>
+    unfold stepPc; simp only
+    intro b
+    have := h b
+    repeat' split
+    all_goals first | exact this | (simp only [touch_nInst, touch_nGc, touch_present, setMeta_nInst, setMeta_nGc, setMeta_present]; exact this)
+  case uClosePkg pend r =>
+    unfold stepPc; simp only [afterShare_fst]
+    intro b
+    have := h b
+    cases pend with
+    | none => exact this
+    | some m' => simp only [setMeta_nInst, setMeta_nGc, setMeta_present]; exact this
+  all_goals (unfold stepPc; simp only)
+  all_goals (repeat' split)
+  all_goals first | exact h | (simp only [afterShare_fst, finishGc_fst, gcStart_fst, gcNext_fst, gcPlan_fst]; exact h) | (intro b; simpa using h b)
+
+theorem countInv_step (H : Nat → Nat) (ff : Bool) (s : St) (p : Pid) (h : CountInv s.g) : CountInv (step H ff s p).g := by
+  rcases step_cases H ff s p with ⟨_, e⟩ | ⟨pr, _, e⟩
+  · rw [e]; exact h
+  · rw [e]; exact stepPc_countInv H ff pr.prog _ _ s.g pr.pc h
+
+def Res.isInst : Res → Bool
+  | .inst _ => true
+  | _ => false
+
+def isInstall (prog : Prog) : Bool :=
+  match prog.op with
+  | .install .. => true
+  | _ => false
+
+/-- the ghost flag `pub` (own rename succeeded) as a function of the program counter -/
+def PubOk (prog : Prog) (pub : Bool) : Pc → Prop
+  | .start | .iVerify | .iRename _ => pub = false
+  | .iAddOpen | .iAddLock | .iAddCreate | .iAddCreateLock | .iAddClose .. => pub = true
+  | .gOpen | .gLock | .gScanOpen .. | .gScanLock .. | .gMove .. => isInstall prog = true → pub = true
+  | .gClose _ r => r.isInst = false ∧ (isInstall prog = true → pub = true)
+  | .uClosePkg _ r => r.isInst = false
+  | .done (.inst b) => pub = b
+  | _ => True
+
+theorem pubOk_afterShare_inst (prog : Prog) (g : Store) (b : Bool) : PubOk prog b (afterShare prog g (.inst b)).2 := by
+  unfold afterShare
+  split
+  · rfl
+  · trivial
+
+theorem pubOk_afterShare (prog : Prog) (pub : Bool) (g : Store) (r : Res) (hr : r.isInst = false) :
+    PubOk prog pub (afterShare prog g r).2 := by
+  unfold afterShare
+  split
+  · cases r <;> first | trivial | (simp [Res.isInst] at hr)
+  · cases r <;> simp only <;> (try split) <;> (try split) <;> first | trivial | (simp [Res.isInst] at hr)
+
+theorem pubOk_finishGc (prog : Prog) (pub : Bool) (g : Store) (r : Res) (hr : r.isInst = false)
+    (hp : isInstall prog = true → pub = true) : PubOk prog pub (finishGc prog g r).2 := by
+  unfold finishGc
+  cases hop : prog.op with
+  | install ws b dst cl sz au lk =>
+    simp only
+    have : pub = true := hp (by simp [isInstall, hop])
+    subst this
+    split
+    · trivial
+    · exact pubOk_afterShare_inst prog g true
+  | _ => simp only; cases r <;> first | trivial | (simp [Res.isInst] at hr)
+
+theorem pubOk_gcStart (prog : Prog) (pub : Bool) (g : Store)
+    (hp : isInstall prog = true → pub = true) : PubOk prog pub (gcStart prog g).2 := by
+  unfold gcStart
+  split
+  · exact pubOk_finishGc prog pub g _ rfl hp
+  · split
+    · exact pubOk_finishGc prog pub g _ rfl hp
+    · exact hp
+
+theorem pubOk_gcPlan (prog : Prog) (pub : Bool) (g : Store) (rm : List (Bid × Nat)) (c : List Cand) (t : Nat)
+    (hp : isInstall prog = true → pub = true) : PubOk prog pub (gcPlan prog g rm c t).2 := by
+  unfold gcPlan
+  simp only
+  split
+  · refine ⟨?_, hp⟩; split <;> rfl
+  · exact hp
+
+theorem pubOk_gcNext (prog : Prog) (pub : Bool) (g : Store) (rm todo : List (Bid × Nat)) (c : List Cand) (t : Nat)
+    (hp : isInstall prog = true → pub = true) : PubOk prog pub (gcNext prog g rm todo c t).2 := by
+  unfold gcNext
+  split
+  · exact pubOk_gcPlan prog pub g rm c t hp
+  · exact hp
+
+theorem stepPc_pubOk (H : Nat → Nat) (ff : Bool) (prog : Prog) (exO shO : Bool) (g : Store) (pc : Pc) (pub : Bool)
+    (h : PubOk prog pub pc) :
+    PubOk prog (pub || isPublish g prog pc) (stepPc H ff prog exO shO g pc).2 := by
+  cases pc
+  case iRename tmp =>
+    have hp : pub = false := h
+    subst hp
+    unfold stepPc; simp only [isPublish]
+    cases hf : g.final (opBid prog) with
+    | none => simp; rfl
+    | some d => simp; exact pubOk_afterShare_inst prog g false
+  case start =>
+    have hp : pub = false := h
+    subst hp
+    unfold stepPc; simp only [isPublish, Bool.or_false]
+    cases hop : prog.op with
+    | use => trivial
+    | install ws b dst cl sz au lk =>
+      simp only
+      split
+      · exact pubOk_afterShare_inst prog g false
+      · split
+        · trivial
+        · rfl
+    | gc => simp only; exact pubOk_gcStart prog false g (by simp [isInstall, hop])
+    | dropws => trivial
+  case iAddClose pend tot failed =>
+    have hp : pub = true := h
+    subst hp
+    unfold stepPc; simp only [isPublish, Bool.or_false]
+    split
+    · trivial
+    · split
+      · split
+        · exact pubOk_gcStart prog true _ (fun _ => rfl)
+        · exact pubOk_afterShare_inst prog _ true
+      · exact pubOk_afterShare_inst prog _ true
+  case done r => simpa [stepPc, isPublish] using h
+  case gClose pend r =>
+    unfold stepPc; simp only [isPublish, Bool.or_false]
+    exact pubOk_finishGc prog pub _ r h.1 h.2
+  case uClosePkg pend r =>
+    unfold stepPc; simp only [isPublish, Bool.or_false]
+    exact pubOk_afterShare prog pub _ r h
+  all_goals (unfold stepPc; simp only [isPublish, Bool.or_false])
+  all_goals (repeat' split)
+  all_goals first
+    | exact h
+    | trivial
+    | exact pubOk_afterShare prog pub _ _ rfl
+    | exact pubOk_gcNext prog pub _ _ _ _ _ h
+    | exact pubOk_gcPlan prog pub _ _ _ _ h
+    | exact ⟨rfl, h⟩
+    | exact ⟨by split <;> rfl, h⟩
+
+def PubInv (s : St) : Prop := ∀ (i : Nat) (pi : Proc), s.procs[i]? = some pi → PubOk pi.prog pi.pub pi.pc
+
+theorem pubInv_step (H : Nat → Nat) (ff : Bool) (s : St) (p : Pid) (h : PubInv s) : PubInv (step H ff s p) := by
+  rcases step_cases H ff s p with ⟨_, e⟩ | ⟨pr, hpr, e⟩
+  · rw [e]; exact h
+  · rw [e]
+    intro i pi hi
+    simp only at hi
+    rcases getElem?_set_cases hi with ⟨rfl, rfl, _⟩ | ⟨_, hi'⟩
+    · exact stepPc_pubOk H ff pr.prog _ _ s.g pr.pc pr.pub (h i pr hpr)
+    · exact h i pi hi'
+
+/-- the counter of successful renames moves exactly in a publishing segment -/
+theorem stepPc_nInst (H : Nat → Nat) (ff : Bool) (prog : Prog) (exO shO : Bool) (g : Store) (pc : Pc) :
+    (stepPc H ff prog exO shO g pc).1.nInst =
+      if isPublish g prog pc then upd g.nInst (opBid prog) (g.nInst (opBid prog) + 1) else g.nInst := by
+  cases pc
+  case iRename tmp =>
+    unfold stepPc; simp only [isPublish]
+    cases hs : (g.final (opBid prog)).isSome with
+    | true =>
+      have : (g.final (opBid prog)).isNone = false := by cases hx : g.final (opBid prog) <;> simp [hx] at hs ⊢
+      simp [this]
+    | false =>
+      have : (g.final (opBid prog)).isNone = true := by cases hx : g.final (opBid prog) <;> simp [hx] at hs ⊢
+      simp [this]
+  case gMove rm plan t d te =>
+    simp only [isPublish]
+    cases plan with
+    | nil => exact (stepPc_gMove_other H ff prog exO shO g rm [] t d te (by intro c rest hh; cases hh)).2.2.1
+    | cons c rest =>
+      cases hf : g.final c.bid with
+      | none =>
+        exact (stepPc_gMove_other H ff prog exO shO g rm (c :: rest) t d te (by intro c' rest' hh; cases hh; exact hf)).2.2.1
+      | some dd => exact (stepPc_gMove_cons H ff prog exO shO g rm c rest t d te dd hf).2.2.1
+  case uLockPkg =>
+    unfold stepPc; simp only [isPublish]
+    repeat' split
+    all_goals first | rfl | simp
+  case uClosePkg pend r =>
+    unfold stepPc; simp only [afterShare_fst, isPublish]
+    cases pend <;> simp
+  all_goals (unfold stepPc; simp only [isPublish])
+  all_goals (repeat' split)
+  all_goals first | rfl | simp
+
+def pubCount (procs : List Proc) (b : Bid) : Nat := procs.countP (fun q => q.pub && opBid q.prog == b)
+
+/-- successful renames of `b` = `base b` + number of processes whose own rename of `b` succeeded -/
+def PubCount (base : Bid → Nat) (s : St) : Prop := ∀ b, s.g.nInst b = base b + pubCount s.procs b
+
+theorem pubCount_step (H : Nat → Nat) (ff : Bool) (base : Bid → Nat) (s : St) (p : Pid) (hp : PubInv s)
+    (h : PubCount base s) : PubCount base (step H ff s p) := by
+  rcases step_cases H ff s p with ⟨_, e⟩ | ⟨pr, hpr, e⟩
+  · rw [e]; exact h
+  · rw [e]
+    intro b
+    have hlt : p < s.procs.length := by
+      rcases Nat.lt_or_ge p s.procs.length with hl | hl
+      · exact hl
+      · rw [List.getElem?_eq_none hl] at hpr; cases hpr
+    have hget : s.procs[p] = pr := by
+      have := List.getElem?_eq_getElem hlt
+      rw [this] at hpr; exact Option.some.inj hpr
+    simp only [pubCount, stepPc_nInst]
+    rw [List.countP_set hlt, hget]
+    have hb := h b
+    simp only [pubCount] at hb
+    cases hpub : isPublish s.g pr.prog pr.pc with
+    | false =>
+               simp only [Bool.or_false, Bool.false_eq_true, ↓reduceIte]
+               have : (List.countP (fun q => q.pub && opBid q.prog == b) s.procs) ≥ (if (pr.pub && opBid pr.prog == b) = true then 1 else 0) := by
+                 have hm : pr ∈ s.procs := by rw [← hget]; exact List.getElem_mem hlt
+                 split
+                 · rename_i hc
+                   exact List.countP_pos_iff.mpr ⟨pr, hm, hc⟩
+                 · omega
+               omega
+    | true =>
+      have hpf : pr.pub = false := by
+        have := hp p pr hpr
+        cases hq : pr.pc <;> simp [isPublish, hq] at hpub
+        rw [hq] at this; exact this
+      simp only [hpf, Bool.false_and, Bool.false_or, Bool.true_and, if_true]
+      by_cases eb : b = opBid pr.prog
+      · subst eb; simp [upd]; omega
+      · have : (opBid pr.prog == b) = false := by simp; exact fun h => eb h.symm
+        simp [upd, eb, this]; omega
+
 end Share
